@@ -390,6 +390,8 @@ pub trait Vec1View<T>: TIter<T> {
         Self: 'a,
         T: 'a,
     {
+        // a zero window would leave every slot of `out` unwritten
+        assert!(window > 0, "window must be greater than 0");
         let len = self.len();
         let window = window.min(len);
         if window == 0 {
@@ -561,6 +563,8 @@ pub trait Vec1View<T>: TIter<T> {
         T: Clone,
         F: FnMut(Option<T>, T) -> OT,
     {
+        // a zero window would leave every slot of `out` unwritten
+        assert!(window > 0, "window must be greater than 0");
         let len = self.len();
         let window = window.min(len);
         if window == 0 {
@@ -680,6 +684,8 @@ pub trait Vec1View<T>: TIter<T> {
     ) where
         F: FnMut(Option<(T, T2)>, (T, T2)) -> OT,
     {
+        // a zero window would leave every slot of `out` unwritten
+        assert!(window > 0, "window must be greater than 0");
         let len = self.len();
         let window = window.min(len);
         if window == 0 {
@@ -791,6 +797,8 @@ pub trait Vec1View<T>: TIter<T> {
         // start, end, value
         F: FnMut(Option<usize>, usize, T) -> OT,
     {
+        // a zero window would leave every slot of `out` unwritten
+        assert!(window > 0, "window must be greater than 0");
         let len = self.len();
         let window = window.min(len);
         if window == 0 {
@@ -912,6 +920,8 @@ pub trait Vec1View<T>: TIter<T> {
     ) where
         F: FnMut(Option<usize>, usize, (T, T2)) -> OT,
     {
+        // a zero window would leave every slot of `out` unwritten
+        assert!(window > 0, "window must be greater than 0");
         let len = self.len();
         let window = window.min(len);
         if window == 0 {
